@@ -12,6 +12,7 @@ import (
 	"verif/internal/cat"
 	"verif/internal/gen"
 	"verif/internal/harness"
+	"verif/internal/hostile"
 	"verif/internal/spec"
 )
 
@@ -132,7 +133,17 @@ func genResp(t *rapid.T) respCase {
 			r.Additional = nil
 		}
 	}
-	return respCase{Framing: gen.Framing(t), Resp: r, Legal: legal}
+	c := respCase{Framing: gen.Framing(t), Resp: r, Legal: legal}
+	if (fc == 3 || fc == 4) && legal && len(r.Data) >= 6 && rapid.IntRange(0, 5).Draw(t, "embedded_exception") == 0 {
+		// a well-formed register response whose last three data bytes plus CRC are, taken alone, a complete CRC-valid exception frame
+		// (a, function|0x80, code): built for the RTU framing, where it matters
+		a := rapid.Uint8().Draw(t, "emb_unit")
+		b := rapid.SampledFrom([]uint8{1, 2, 3, 4, 5, 6, 15, 16, 17, 23, 8, 43}).Draw(t, "emb_fc")
+		code := rapid.SampledFrom([]uint8{1, 2, 3, 4, 5, 6, 8, 10, 11, 0, 0x7F}).Draw(t, "emb_code")
+		fr := hostile.ResponseWithEmbeddedException(r.Unit, fc, len(r.Data)/2, rapid.Uint64().Draw(t, "emb_seed"), a, b, code)
+		c.Resp.Data = append([]byte(nil), fr[3:len(fr)-2]...)
+	}
+	return c
 }
 
 func parsersFor(f spec.Framing, fc uint8) []cat.Parser {
